@@ -86,3 +86,18 @@ CLAIMS["C15"] = dict(
           "itself (overflow at extreme widths) are NOT decided."),
     technique="reaching-definition agreement between header fields and emission bound; two-state evaluation of the type predicate",
     design_ref="DESIGN.md section 3, C15 (R15a-R15c)")
+
+CLAIMS["C02"] = dict(
+    text=("Decides the argument 'structured fork-join + non-interfering siblings + no thread-identity/-count dataflow => "
+          "every schedule computes what the serial elision computes' on the OpenMP AST (clang -fopenmp): from every omp "
+          "task no path reaches the function exit, a call or a shared store before a taskwait; every pair of tasks that can "
+          "be active together has disjoint field-level effect summaries on the objects they share (forward writes only "
+          "m->f, backward only m->b, split2 only its own res[k]); recursive sibling merges write shared arrays only at "
+          "their own node ids and use a private aln_mem; the parallel for stores only to dm[i][j]/private data and has no "
+          "reduction/atomic; no omp_get_thread_num/num_threads/wtime; the thread count reaches only omp_set_num_threads, "
+          "the clamp, run_parallel and if() clauses; parallel and serial Hirschberg steps dispatch identically; thorough: "
+          "OpenMP and non-OpenMP configurations make the same calls in every function."),
+    note=("Assumes the two children of a guide-tree node are disjoint subtrees (run-time invariant of create_tasks), IEEE "
+          "arithmetic deterministic per operation, libgomp's taskwait/barrier. Does not execute any schedule."),
+    technique="OpenMP AST + CFG open-region analysis, interprocedural field-level effect summaries, sibling cross-check",
+    design_ref="DESIGN.md section 3, C02 (R02a-R02h)")
